@@ -76,6 +76,12 @@ def p_mul(a, b):
 CMP_FLIP = {"Gt": ("Lt", True), "GtE": ("LtE", True)}
 
 
+def _numericish(t):
+    if t[0] == "const":
+        return t[1] in ("int", "float")
+    return t[0] in ("poly", "name", "param", "bound", "sub", "attr", "call", "binop")
+
+
 class Canon:
     """expression -> canonical term under an environment of bound names"""
 
@@ -213,6 +219,9 @@ class Canon:
                 l2, r2 = r, left
             if name in ("Eq", "NotEq", "Is", "IsNot"):
                 l2, r2 = sorted((l2, r2), key=repr)
+            if name in ("Lt", "LtE") and _numericish(l2) and _numericish(r2):
+                # a < b  ==  a - b < 0 : terms may move freely across the comparison
+                l2, r2 = p_add(l2, r2, -1), const(0)
             terms.append(("cmp", name, l2, r2))
             left = r
         return terms[0] if len(terms) == 1 else ("and", tuple(terms))
